@@ -298,6 +298,7 @@ def c01_skeleton(feat: int, t0: int, n0: int, n1: int) -> bool:
     rows = [{"type": "text", "name": N, "label": T}]
     wb = {"survey": rows, "settings": [{"form_title": T, "form_id": "f" + N}]}
     if feat == 1:  # submission + itext + secondary instance
+        rows[0]["name"] = "q9"  # itext ids are dict keys of Survey._translations: the name must be concrete here
         wb["settings"][0]["submission_url"] = "http://x/" + N
         rows[0]["label::L1"] = T
         rows.append({"type": "select_one l1", "name": "s9", "label": "S"})
@@ -310,12 +311,14 @@ def c01_skeleton(feat: int, t0: int, n0: int, n1: int) -> bool:
     elif feat == 3:  # audit, trigger, dynamic default, range
         rows += [{"type": "audit", "name": "audit"}, {"type": "calculate", "name": "c9", "calculation": "1", "trigger": "${" + "q09}"}, {"type": "text", "name": "q09", "label": "Q", "default": "now()"}, {"type": "range", "name": "rg9", "label": T, "parameters": "start=1 end=5 step=1"}]
         rows.insert(0, rows.pop(3))
-    survey, _w, _js = build_survey(wb, form_name="d" + N)
+    # itext ids (xpaths) are dict keys of Survey._translations: names on the path stay concrete with itext
+    fname = "data9" if feat == 1 else "d" + N
+    survey, _w, _js = build_survey(wb, form_name=fname)
     root = survey.xml()
     if not _skeleton_ok(root):
         return False
     prim = child_elements([c for c in elements(root, "instance")][0])[0]
-    if prim.tagName != "d" + N or prim.getAttribute("id") != "f" + N:
+    if prim.tagName != fname or prim.getAttribute("id") != "f" + N:
         return False
     return names_violation(root) is None and chars_violation(root) is None
 
